@@ -1,0 +1,20 @@
+//go:build verif
+
+package repl
+
+// Verification hook (add-only, build tag `verif`): lets a harness feed inputs to the REPL's own
+// `evaluate` (the function behind `elk repl`), which prints to os.Stdout/os.Stderr.
+
+import "context"
+
+// VerifSession wraps the REPL evaluator.
+type VerifSession struct {
+	e *evaluator
+}
+
+func NewVerifSession() *VerifSession {
+	return &VerifSession{e: &evaluator{ctx: context.Background(), sourceMap: make(map[string]string)}}
+}
+
+// Evaluate runs repl.evaluate on one input.
+func (s *VerifSession) Evaluate(input string) { s.e.evaluate(input) }
